@@ -110,6 +110,13 @@ def workloads(root):
     W['parse-path-names'] = (0, ['init A M1 0', 'parse_buf A ' + E(b'mt a { } sec|x = 5 "mt=a|x" = 6 sec|in t { } "sec|in=t|z" = {w} "sec|in=t|z" += {v}')])
     W['parse-path-names-ignore'] = (CFGF['IGNORE_UNKNOWN'], ['init A M1 %d' % CFGF['IGNORE_UNKNOWN'],
                                                              'parse_buf A ' + E(b'mt a { } sec|x = 5 zz|y = 1 "mt=a|x" = 6 sec|in t { } "sec|in=t|z" += {v} "mt=q|x" = 2 i = 3')])
+    # lists that carry an annotation, in and out of their pristine state, set / appended / bulk-set / emptied again
+    W['annotated-lists'] = (CFGF['COMMENTS'], ['init A M1 %d' % CFGF['COMMENTS'], 'parse_buf A ' + E(b'# from the text\nsl = {x, y}\n/* two\nlines */\nfl = {2.5}'),
+                                               'setcomment A %s %s' % (E('il'), E('pristine list')), 'setlist A %s int 2 7 8' % E('il'),
+                                               'setlist A %s str 2 %s %s' % (E('sl'), E('a'), E('b')), 'setcomment A %s %s' % (E('sl'), E('again')),
+                                               'addlist A %s str 1 %s' % (E('sl'), E('c')), 'setmulti A %s 2 %s %s' % (E('sl'), E('p'), E('q')),
+                                               'setcomment A %s %s' % (E('bl'), E('bools')), 'setlist A %s bool 0' % E('bl'), 'setlist A %s float 2 1.5 2.5' % E('fl'),
+                                               'setmulti A %s 2 %s %s' % (E('il'), E('3'), E('x')), 'print A'])
     W['two-contexts'] = (0, ['init A M1 0', 'init B M1 %d' % CFGF['NOCASE'], 'parse_buf A ' + E(b'i = 1 m { }'), 'parse_buf B ' + E(b'I = 2 M { X = 3 }'),
                              'free A', 'parse_buf B ' + E(b'mt q { }')])
     return W
